@@ -15,6 +15,7 @@ func init() {
 		explanation: "Decided (structural, for every interleaving of AddRow calls, both writers): " +
 			"C18.locked — in everything reachable from AddRow, every access to the writer's fields (row counter, schema, bitmap map, temp transaction) and to the schema's and columns' maps happens with the writer's mutex held exclusively on every path (lock-state dataflow; callee context = meet over call sites; deferred unlock and deferred increment closure replayed in LIFO order, so swapping the two defers or narrowing the critical section is reported); " +
 			"C18.rowid — the id a call adds to every bitmap / encodes into every temp key (directly or in a helper it calls, whose parameter is bound to the call's argument) and the id it returns are the same SSA value, the load of the row counter taken under the lock; the only stores to the counter anywhere are `counter + 1`, and every successful return of AddRow has passed exactly one such increment. " +
+			"C18.lockbalance — every mutex field a function reachable from AddRow/Flush acquires is released (directly or by a deferred unlock registered on that path) on every path to every return: a call that leaves the writer mutex locked blocks all other callers for ever. " +
 			"Hence calls are mutually exclusive, each gets one id, ids are consecutive from 0 and each row's values carry one id. " +
 			"NOT decided: equality of the flushed index with the sequential one (follows from mutual exclusion and commutativity of bitmap Add; not checked as such); Flush concurrent with AddRow (outside the property).",
 		assumptions: []string{"sync.Mutex semantics", "bbolt write transaction used by one goroutine at a time is safe", "roaring Add is deterministic"},
@@ -33,6 +34,7 @@ func runC18(c *Ctx) {
 		lockedRule(c, "C18.locked", wr.name, wr.addRow, wr.typ)
 		rowidRule(c, "C18.rowid", wr.name, wr.addRow, wr.typ)
 	}
+	lockBalanceRule(c, "C18.lockbalance", c.a.MemAddRow, c.a.BigAddRow, c.a.MemFlush, c.a.BigFlush) // an AddRow/Flush that returns with the writer mutex held blocks all other callers
 	c.r.expect("C18.locked", 12)
 	c.r.expect("C18.rowid", 6)
 }
